@@ -1,5 +1,6 @@
 """C05 — every expression is given the type C11 assigns it (DESIGN 3/C05)."""
 import itertools
+import re
 import os
 import shutil
 import struct
@@ -173,11 +174,27 @@ def run_probes(ctx, src, probes, target, res, std="gnu2x"):
     p = cproc.cc(ctx, src.encode(), target, "plain", timeout=60)
     if p.rc != 0:
         ref = clang_values(ctx, src, target, std)
-        if ref is None:
-            res.discard.append("batch-rejected-by-clang-too")
+        if ref is not None:
+            res.fail = dict(sig="reject:" + p.err.decode(errors="replace").split("error:")[-1].strip()[:50],
+                            msg="typing probes rejected (%s): %s" % (target, p.err.decode(errors="replace")[:300]), input=src)
             return
-        res.fail = dict(sig="reject:" + p.err.decode(errors="replace").split("error:")[-1].strip()[:50],
-                        msg="typing probes rejected (%s): %s" % (target, p.err.decode(errors="replace")[:300]), input=src)
+        # clang cannot take the whole batch (it lacks some C23 spellings): judge the probes cproc rejects one by one
+        lines = src.split("\n")
+        head = [l for l in lines if not re.match(r"\s*(static )?int k\d+ = ", l)]
+        for l in lines:
+            if not re.match(r"\s*(static )?int k\d+ = ", l):
+                continue
+            one = "\n".join(head + [l]) + "\n"
+            q = cproc.cc(ctx, one.encode(), target, "plain", timeout=60)
+            if q.rc == 0:
+                continue
+            if clang_values(ctx, one, target, std) is None:
+                res.discard.append("probe-rejected-by-clang-too")
+                continue
+            res.fail = dict(sig="reject:" + q.err.decode(errors="replace").split("error:")[-1].strip()[:50],
+                            msg="typing probe rejected (%s): %s: %s" % (target, l.strip()[:80], q.err.decode(errors="replace")[:200]), input=one)
+            return
+        res.discard.append("batch-rejected-but-every-probe-accepted-alone")
         return
     mod, errs = ilcheck.validate(p.out)
     if errs:
